@@ -791,6 +791,10 @@ def main(argv) -> int:
     deadline = chk.t0 + budget
     # the target bound may use a little more than the optional work
     target_deadline = deadline + chk.pick(15, 60)
+    if chk.budget is None:
+        # the target bound is what the verdict rests on: on a crowded machine it may take
+        # up to six budgets (an idle machine needs a third of one)
+        target_deadline = chk.t0 + 6 * budget
     workers = min(8, os.cpu_count() or 1)
     depth = chk.pick(2, 3)
     target_size = 5
